@@ -3,7 +3,7 @@ arguments of the analysis entry points.  Pure numpy, no dclab import.  Every obj
 function of the numpy Generator handed in (derived from (seed, property, salt, index))."""
 import numpy as np
 
-FEATURES = ["area_um", "deform", "aspect", "bright_avg", "bright_sd", "fl1_max", "fl1_pos",
+FEATURES = ["area_um", "deform", "aspect", "bright_avg", "bright_sd", "fl1_max", "fl2_max", "fl1_pos",
             "pos_x", "pos_y", "size_x", "time", "circ", "tilt", "userdef1", "area_ratio",
             "inert_ratio_cvx"]
 
@@ -108,6 +108,9 @@ def contaminate(rng, v):
 def gen_columns(rng, n, n_feats=None):
     k = int(rng.integers(2, 6)) if n_feats is None else n_feats
     feats = [str(f) for f in rng.choice(FEATURES, k, replace=False)]
+    if rng.random() < 0.1:
+        # a fluorescence pair (stored as unsigned integers in .rtdc files)
+        feats = ["fl1_max", "fl2_max"] + [f for f in feats if f not in ("fl1_max", "fl2_max")][:k - 2]
     cols, shapes = {}, {}
     for f in feats:
         shape = str(rng.choice(COL_SHAPES, p=COL_P))
@@ -244,6 +247,8 @@ def _scaled_valid(x, y, xscale, yscale):
 
 
 def gen_axes(rng, feats):
+    if feats[:2] == ["fl1_max", "fl2_max"] and rng.random() < 0.5:
+        return "fl1_max", "fl2_max"
     if len(feats) >= 2 and rng.random() < 0.97:
         a, b = rng.choice(feats, 2, replace=False)
     else:
@@ -383,7 +388,7 @@ def gen_stat_args(rng, feats):
         k = int(rng.integers(1, len(feats) + 1))
         features = [str(f) for f in rng.choice(feats, k, replace=False)]
         if rng.random() < 0.15:
-            features.append("fl3_max" if "fl3_max" not in feats else "fl2_max")   # not there
+            features.append("fl3_max")                    # not in the dataset
         if rng.random() < 0.15:
             features[0] = features[0].upper()
         if rng.random() < 0.1:
